@@ -284,6 +284,7 @@ ARENA.update({
         x=['prepare-moved-a-bump-position', 'try-with-mut-panic-moved-a-position', 'try-with-mut-panic', 'prepared-capacity-smaller-than-requested', 'committed-slice-lost-contents',
            'commit-advanced-position-by-more-than-contents-plus-padding', 'block-contents-changed', 'live-blocks-overlap', 'panic'],
         mism=['prepared-range', 'result-block', 'block-contents', 'stats'],
+        colls_x=['helpers: position moved'],
         note='prepare/fill/commit primitives (typed+dyn, forward+reverse) proved incl. invariant preservation and prepare => commit contract; every SEQUENCE of prepare / write steps keeps all chunks up to the original current one unchanged and leaves at most a later, empty chunk current (ArenaFill.v); the growth policy is the capacity model of C08 (VecCap.v, MutBumpVec(Rev) included); PARTIAL: iterator size hints and the *_mut helpers on top are exercised on the implementation'),
     'C17': dict(
         x=['panic', 'block-misaligned', 'live-blocks-overlap', 'entry-points-differ'],
@@ -556,9 +557,9 @@ for _p in ARENA:
 # collection algorithms: C06 C08 C16 (and the collection-level clauses of C07)
 # ----------------------------------------------------------------------------------------
 COLLS = {
-    'C06': dict(x=['accounted', 'lost', 'unknown element', 'stale slot', 'drops do not match', 'was dropped while moving'],
-                note='PARTIAL: conservation proved for the modelled algorithms (now including into_iter, splice, map_in_place with a panicking closure, append); map / extend with lying size hints / resize_with / dedup_by_key / into_boxed_slice / partition are covered by the drop-count monitor and std Vec in lock-step only (extras probe)'),
-    'C08': dict(x=['std::vec::Vec', 'contents differ', 'returned values differ', 'capacity:', 'capacity ', 'cap history', 'overwrote a neighbouring allocation', 'yielded', 'len() of the iterator', 'accounted', 'lost'],
+    'C06': dict(x=['accounted', 'lost', 'unknown element', 'stale slot', 'drops do not match', 'was dropped while moving', 'helpers:'],
+                note='PARTIAL: conservation proved for the modelled algorithms (now including into_iter, splice, map_in_place with a panicking closure, append); map / extend with lying size hints / resize_with / dedup_by_key / into_boxed_slice / partition are covered by the drop-count monitor and std Vec in lock-step only (extras probe); the allocation helpers and collections of zero-sized elements are covered by birth/drop-count probes (helpers probe, HP / HZ lines), the two zero-sized branches that were defective are modelled in both versions (pinned refuted, repaired proved)'),
+    'C08': dict(x=['std::vec::Vec', 'contents differ', 'returned values differ', 'capacity:', 'capacity ', 'cap history', 'helpers: contents', 'overwrote a neighbouring allocation', 'yielded', 'len() of the iterator', 'accounted', 'lost'],
                 note='list-function refinement proved for the modelled operations; capacity clauses proved for BumpVec / FixedBumpVec / MutBumpVec / MutBumpVecRev over the capacity model VecCap.v (capacity >= length in every reachable state, reserve / reserve_exact / with_capacity keep their promise, no allocator call and no move while the promise suffices, amortised doubling, a fixed vector never reallocates and fails exactly when full) and replayed from capacity histories; PARTIAL: zero-sized element types and unmodelled operations are checked against std::vec::Vec in lock-step only'),
     'C16': dict(x=['split_off capacities', 'split_off part', 'changed the remaining part', 'changed the split-off part', 'parts:'],
                 ops=['split_off', 'split_at', 'split_first', 'split_last', 'split_off_first', 'split_off_last', 'partition', 'merge'],
@@ -605,9 +606,9 @@ def run_colls(ctx, cases, seeds, inputs_file=None, binname='colls', prefix='C ')
             with open(trace) as f:
                 for l in f:
                     l = l.rstrip('\n')
-                    if l.startswith(prefix) or (binname == 'colls' and l.startswith('V ')):
+                    if l.startswith(prefix) or (binname == 'colls' and (l.startswith('V ') or l.startswith('HP ') or l.startswith('HZ ') or l.startswith('HB '))):
                         last_case = l
-                        if len(res['samples']) < 6 and not l.startswith('V '):
+                        if len(res['samples']) < 6 and l.startswith(prefix):
                             res['samples'].append(l[:200])
                     elif l.startswith('X '):
                         xs.append((b, last_case, l))
@@ -637,6 +638,8 @@ def colls_verdict(ctx, pid, res, conf):
         if pid == 'C16' and 'split_off' not in xl and 'parts probe' not in xl and 'parts case' not in xl:
             continue
         if pid != 'C16' and ('parts probe' in xl or 'parts case' in xl):
+            continue
+        if 'helpers case' in xl and not (pid == 'C06' or (pid == 'C08' and 'contents of' in xl)):
             continue
         probe = ' probe ' in xl or ' reserve ::' in xl
         ctx.violations.append({'kind': 'colls-probe' if probe else 'colls-case', 'build': b, 'case': None if probe else case, 'what_fails': xl,
